@@ -143,6 +143,7 @@ Definition T_SEG := 106.     (* n 106 j type flags offset vaddr paddr filesz mem
 Definition T_SEGDATA := 107. (* b 107 j filesz : data | null *)
 Definition T_COUNTS := 108.  (* n 108 nsec nseg *)
 Definition T_ALLOCMAX := 109.
+Definition T_ABSENT := 111.  (* n 111 <i>: no such section/segment *)
 Definition T_DUMP := 110.
 Definition T_OBJ := 120.     (* n 120 <k>: following operations act on object k *)
 Definition T_HASH := 90.     (* n 90 <kind 0=sysv 1=gnu> <hash> *)
@@ -303,7 +304,7 @@ Fixpoint dump_sections (el : elfio) (i : N) (todo : list section) (seen_modinfo 
           (* symbol_tables *)
           el1 <- (if (sh_type s =? SHT_SYMTAB) || (sh_type s =? SHT_DYNSYM) then
                     '(el0, _, s0) <- sec_data junk0 el i ;;
-                    dump_symbols (data_fuel el0 i) el0 i 0 (get_symbols_num el0 s0)
+                    dump_symbols (count_fuel (get_symbols_num el0 s0)) el0 i 0 (get_symbols_num el0 s0)
                   else Ok el) ;;
           (* notes (sections) *)
           el2 <- (if sh_type s =? SHT_NOTE then
@@ -378,11 +379,13 @@ Definition step1 (w : world) (o : op) : res (world * list obs) :=
   | OpDIns i pos d =>
       s <- need_sec el i ;; s1 <- insert_data junk0 (xe el) s pos d ;; Ok (mkWorld (upd_sec el i s1), [])
   | OpGetData i =>
+      match get_sec el i with None => Ok (w, [ObN T_ABSENT [i]]) | Some _ =>
       '(el1, p) <- el_sec_get_data junk0 el i ;;
       s <- need_sec el1 i ;;
       match p with
       | None => Ok (mkWorld el1, [ObB T_DATA [i; sh_size s] None])
       | Some _ => bs <- rd p 0 (sh_size s) ;; Ok (mkWorld el1, [ObB T_DATA [i; sh_size s] (Some bs)])
+      end
       end
   | OpFree i =>
       s <- need_sec el i ;; Ok (mkWorld (upd_sec el i (free_data s)), [])
@@ -425,13 +428,17 @@ Definition step1 (w : world) (o : op) : res (world * list obs) :=
       Ok (w, [ObN T_VALID [lenN (filter (fun c => match c with COverlap _ _ => true | _ => false end) cs);
                            lenN (filter (fun c => match c with CSegAddr _ _ => true | _ => false end) cs)]])
   | OpObsHdr => Ok (w, [obs_hdr el])
-  | OpObsSec i => s <- need_sec el i ;; Ok (w, [obs_sec i s])
+  | OpObsSec i => match get_sec el i with Some s => Ok (w, [obs_sec i s]) | None => Ok (w, [ObN T_ABSENT [i]]) end
   | OpObsSeg j =>
       match get_seg el j with
-      | None => Fault OobRead
+      | None => Ok (w, [ObN T_ABSENT [j]])
       | Some g => Ok (w, [obs_seg j g])
       end
-  | OpSegData j => '(el1, o1) <- obs_segdata el j ;; Ok (mkWorld el1, [o1])
+  | OpSegData j =>
+      match get_seg el j with
+      | None => Ok (w, [ObN T_ABSENT [j]])
+      | Some _ => '(el1, o1) <- obs_segdata el j ;; Ok (mkWorld el1, [o1])
+      end
   | OpSegFree j =>
       match get_seg el j with
       | None => Fault OobRead
